@@ -58,6 +58,18 @@ CLAIMED = {
             "Completely enumerated handshake matrix (legacy/new x majors x minors x user data x accept/reject) and gating matrix (negotiated version x gated kinds), plus generated cross-version traffic (calls in both forms, replies, aborts, events, items) with payloads in the sender's epoch: receiver gets the form its version understands, payload meaning preserved, no 1.20 encodings below 1.20.",
             "Version table restated from the changelog; ClientBuilder side covered by the client-level checks.",
             "exhaustive enumeration of small configuration matrices + property-based traffic generation", "5 C12"),
+    "C06": ("api", "exploration",
+            "Randomly composed multi-client programs over the public client API (objects, services, calls, events, channels, bus listeners, discoverers, proxies/replies/ends dropped at generated points; ~60 operations) run by real aldrin::Clients against a real Broker on the deterministic simulator under generated schedules and transport FIFO sizes 1..16 and unbounded, protocol versions 1.14..1.20; oracle: no task panics, no client/connection run future ends with an unexpected-message or transport error, every awaited request-class operation has completed at quiescence and stream-class waits whose peer has provably acted have completed, call replies carry the value computed for that very call, and after all clients shut down an idle-shutdown broker stops; a busy-loop detector turns a future that never yields into a verdict.",
+            "Quiescence of the simulator stands for 'the peer has acted'; stream-class waits are only judged in three situations where the harness knows the peer's action happened; wall-clock time is never a signal.",
+            "property-based testing: generated API programs x generated schedules on a deterministic executor, quiescence/liveness and consistency oracles", "5 C06"),
+    "C15": ("api", "exploration",
+            "Twelve multi-operation client scenarios x {transport error, EOF} injected at EVERY transport operation index k (exhaustive sweep, 3 schedules each) plus generated combinations with the four clean termination causes (shutdown request, last handle dropped, broker shutdown, connection shut down) and randomised schedules; oracle: run() returns (Ok for clean causes, the transport error otherwise), every operation pending at the stop or started afterwards on every kind of handle resolves with a shutdown error / end-of-stream at quiescence, the broker-side connection ends and the broker releases the connection's state.",
+            "Reads 'observes the connection as closed' as: Connection::run ends Ok for the client-side clean causes; the set of probe operations after the stop is a fixed list per handle kind.",
+            "property-based testing with exhaustive fault-point sweep (fault injection at every transport operation) and generated schedules", "5 C15"),
+    "C19": ("api", "exploration",
+            "Generated histories of object/service creation, destruction and same-UUID re-creation interleaved with discoverer start/restart (all four entry kinds, partial service sets, current-only and continuous), lifetimes, find_object/wait_for_object and event consumption under generated schedules; at quiescence each discoverer's view and emitted created/destroyed sequence are compared with a model of the bus state, lifetimes must have ended iff their scope ended, found/waited objects must have existed during the wait.",
+            "The bus state is taken from the harness's own record of acknowledged create/destroy operations; convergence is judged only at simulator quiescence after all notifications were consumed.",
+            "model-based property testing: generated histories x schedules, convergence oracle at quiescence", "5 C19"),
     "C17": ("schema", "exploration",
             "Token soups, statement soups, token/character/line mutations of all 83 repository schemas (incl. a systematic operator x file class), generated valid schemas with markdown-adversarial docs, and multi-schema parses with partial import sets; under catch_unwind: parse, render every diagnostic under several renderer settings, format when permitted, a second complete run must give the same diagnostics (sorted multiset), code generation with all option combinations when there are no errors, and a sampled check that the aldrin-gen CLI (built from the current tree) refuses schemas with errors.",
             "Each case runs under a generated HashMap seed (getrandom shim), so hash-order dependent diagnostics are explored and replay exactly; diagnostics are compared as sorted multisets of rendered strings.",
@@ -101,6 +113,7 @@ def main():
         "engines": [
             {"name": "codec", "path": "harness/codec", "serves_properties": ["C01", "C07", "C08", "C13", "C14"], "kind_free_text": "proptest-driven tape generators + independent reference codec (refcodec) + differential/round-trip oracles; worker subprocesses with crash attribution"},
             {"name": "schema", "path": "harness/schema", "serves_properties": ["C16", "C17", "C18", "C20"], "kind_free_text": "tape-driven schema model + layout printer (grammar-directed), parser/formatter/renderer/codegen front end under catch_unwind with deterministic hash seeds"},
+            {"name": "api", "path": "harness/api", "serves_properties": ["C06", "C15", "C19"], "kind_free_text": "apiprog: tape-decoded programs over the public aldrin client API, interpreted by real clients and a real broker on simbus with scripted/faulty transports; quiescence oracles"},
             {"name": "bus", "path": "harness/bus", "serves_properties": ["C02", "C03", "C04", "C05", "C09", "C10", "C11", "C12"], "kind_free_text": "simbus (deterministic single-threaded executor + getrandom shim) running the real broker with raw protocol peers, lock-step against busmodel (reference model of the protocol)"},
         ],
         "checks": checks,
